@@ -37,6 +37,7 @@ func drawRCase(t *rapid.T, o rOpts) rt.Case {
 			c.Cfg.CommitteeFailFirst = 1 << 30 // the committee source stays unavailable (and honours its context)
 		}
 	}
+	c.Cfg.CommitHonoursCtx = rapid.Bool().Draw(t, "commit-honours-ctx")
 	if n >= 5 && rapid.IntRange(0, 5).Draw(t, "absent?") == 0 {
 		c.Cfg.AbsentAt = uint64(rapid.IntRange(1, 3).Draw(t, "absent-at")) // membership change: the node sits out one height
 	}
@@ -173,7 +174,7 @@ func checkC14(r *rt.Run) *rViolation {
 	for _, e := range h.Events {
 		switch e.Kind {
 		case "commit":
-			if !failed[e.H] {
+			if !failed[e.H] && !e.B { // e.B: the callback reported a failure (configured, or its context was cancelled under it)
 				committed[e.H] = true
 			}
 		case "round":
